@@ -198,6 +198,16 @@ def rule_mask(ctx):
                     ok_prepend = n
                 elif r & extra_names:
                     bad_prepend = n
+            elif isinstance(v, (ast.List, ast.Tuple)) and v.elts and all(
+                    isinstance(e, ast.Starred) for e in v.elts):
+                # [*extra, *inputs]
+                first = names_in(v.elts[0])
+                rest = set().union(*[names_in(e) for e in v.elts[1:]]) \
+                    if len(v.elts) > 1 else set()
+                if first & extra_names and not (rest & extra_names):
+                    ok_prepend = n
+                elif rest & extra_names:
+                    bad_prepend = n
     if bad_prepend is not None:
         rr.fail(key_of(app, 'extra inputs not first'),
                 'extra inputs are appended after the formula inputs, but the '
@@ -490,6 +500,66 @@ def rule_sites(ctx):
                     if sn is not None and ev_node is not None and \
                             cfg.dominates(sn, ev_node, dom):
                         ok = True
+        if not ok:
+            # the mapping may come out of a private helper that sets the flag
+            cands = [(a_, st) for a_ in ev.args if isinstance(a_, ast.Call)]
+            for a_name in arg_names:
+                for t_, v_, st_ in assign_pairs(f):
+                    if isinstance(t_, ast.Name) and t_.id == a_name and \
+                            isinstance(v_, ast.Call):
+                        cands.append((v_, st_))
+            for v_, st_ in cands:
+                if True:
+                    for e_ in ctx.cg._resolve_callee(f, v_.func, v_, 'call'):
+                        if e_.is_ext or e_.precision != 'exact':
+                            continue
+                        h = e_.dst
+                        hcfg = CFG(h)
+                        hdom = hcfg.dominators()
+                        rets = [r_ for r_ in own_nodes(h) if isinstance(
+                            r_, ast.Return) and isinstance(r_.value, ast.Name)]
+                        for r_ in rets:
+                            for s_ in own_nodes(h):
+                                if isinstance(s_, ast.Assign) and len(
+                                        s_.targets) == 1 and isinstance(
+                                        s_.targets[0], ast.Subscript) and \
+                                        module_token(ctx, h, s_.targets[
+                                            0].slice) is flag and isinstance(
+                                        s_.targets[0].value, ast.Name) and \
+                                        s_.targets[0].value.id == r_.value.id \
+                                        and isinstance(s_.value, ast.Constant) \
+                                        and s_.value.value is True and \
+                                        hcfg.dominates(hcfg.node_of(s_),
+                                                       hcfg.node_of(r_), hdom):
+                                    sn = cfg.node_of(st_)
+                                    if sn is not None and ev_node is not None \
+                                            and cfg.dominates(sn, ev_node, dom):
+                                        ok = True
+        if not ok:
+            # the flag is set somewhere this function reaches, but not where it
+            # can be shown to cover the evaluation: undecided, not a violation
+            from ..util import nodes_with_helpers
+            elsewhere = any(
+                isinstance(s_, ast.Assign) and len(s_.targets) == 1 and
+                isinstance(s_.targets[0], ast.Subscript) and
+                module_token(ctx, g_, s_.targets[0].slice) is flag and
+                isinstance(s_.value, ast.Constant) and s_.value.value is True
+                for g_, s_ in nodes_with_helpers(ctx, f))
+            # ... unless this very function stores it into the mapping it
+            # passes, on a path that does not cover the call (after it, or in
+            # one branch only): that is the violation itself
+            misplaced = any(
+                isinstance(s_, ast.Assign) and len(s_.targets) == 1 and
+                isinstance(s_.targets[0], ast.Subscript) and
+                module_token(ctx, f, s_.targets[0].slice) is flag and
+                isinstance(s_.targets[0].value, ast.Name) and
+                s_.targets[0].value.id in arg_names
+                for s_ in own_nodes(f))
+            if elsewhere and not misplaced:
+                raise AnalysisError(
+                    '%s: COMPILING is set in code this function reaches, but '
+                    'not in a place that provably covers `%s`' % (
+                        f.qualname, src(ev)))
         where = '%s:%d' % (f.module.rel, ev.lineno)
         if ok:
             rr.ok('%s: pre-evaluation `%s` runs with COMPILING=True' % (
@@ -826,7 +896,8 @@ def rule_direct(ctx):
 
 
 def run(ctx):
+    S = ctx.soft
     r1, reaching, reach = rule_impure(ctx)
-    return [r1, rule_mask(ctx), rule_nomemo(ctx, reaching, reach),
-            rule_sites(ctx), rule_refs(ctx), rule_direct(ctx),
-            rule_randint(ctx)]
+    return [r1, S(rule_mask, ctx), S(rule_nomemo, ctx, reaching, reach),
+            S(rule_sites, ctx), S(rule_refs, ctx), S(rule_direct, ctx),
+            S(rule_randint, ctx)]
